@@ -108,6 +108,13 @@ func maskOf(l []fld) *fieldmaskpb.FieldMask {
 	}
 	return fm
 }
+func pathsOf(l []fld) []string {
+	out := []string{}
+	for _, f := range l {
+		out = append(out, fldPath[f])
+	}
+	return out
+}
 func jsFlds(l []fld) any {
 	out := []string{}
 	for _, f := range l {
@@ -209,6 +216,10 @@ type fwo struct {
 	// WithCreatedCallback / WithGenIDIfAbsent / WithIDCallback: the callbacks themselves are attached by
 	// world.exec (they log into the fcall), opts() leaves them out
 	createdCb, genID, idCb bool
+	// WithMoreWritablePaths / WithAllFieldsWritable: only matter on a resource constructed with writable fields
+	moreWritable    []fld
+	hasMoreWritable bool
+	allWritable     bool
 }
 
 func (o *fwo) coq() string {
@@ -220,8 +231,8 @@ func (o *fwo) coq() string {
 	}
 	return vcoq.App("mkFWO",
 		vcoq.OptZ(o.time),
-		coqOptFlds(o.update, o.hasUpdate), "None", "None",
-		"false", coqOptMsg(o.expected), vcoq.Bool(o.expectAbsent),
+		coqOptFlds(o.update, o.hasUpdate), "None", coqOptFlds(o.moreWritable, o.hasMoreWritable),
+		vcoq.Bool(o.allWritable), coqOptMsg(o.expected), vcoq.Bool(o.expectAbsent),
 		opt(o.check != nil, func() string { return o.check.coq() }), vcoq.Bool(o.allowMissing),
 		opt(o.before != nil, func() string { return o.before.coq() }),
 		opt(o.after != nil, func() string { return o.after.coq() }),
@@ -234,6 +245,12 @@ func (o *fwo) js() any {
 	}
 	if o.hasUpdate {
 		m["update_mask"] = jsFlds(o.update)
+	}
+	if o.hasMoreWritable {
+		m["more_writable_paths"] = jsFlds(o.moreWritable)
+	}
+	if o.allWritable {
+		m["all_fields_writable"] = true
 	}
 	if o.expected != nil {
 		m["expected"] = jsMsg(o.expected)
@@ -295,6 +312,12 @@ func (o *fwo) opts() []resource.WriteOption {
 	}
 	if o.create {
 		out = append(out, resource.WithCreateIfAbsent())
+	}
+	if o.hasMoreWritable {
+		out = append(out, resource.WithMoreWritablePaths(pathsOf(o.moreWritable)...))
+	}
+	if o.allWritable {
+		out = append(out, resource.WithAllFieldsWritable())
 	}
 	return out
 }
